@@ -157,8 +157,8 @@ func buildReplay(w *World, fn *ssa.Function, con *Contract, ob *Obligation, m ma
 	var pre []string
 	var args []string
 	var body strings.Builder
-	for _, p := range fn.Params {
-		lit, ok := goLiteral(pkg, p.Name(), p.Type(), m, &pre)
+	for i, p := range fn.Params {
+		lit, ok := goLiteral(pkg, paramName(p.Name(), i), p.Type(), m, &pre)
 		if !ok {
 			return "", fmt.Sprintf("parameter %s of type %s cannot be reconstructed from the model", p.Name(), p.Type())
 		}
